@@ -29,13 +29,18 @@
         length, position by position containers of the same kind (`Rec.sameKinds`, decidable:
         `sameContainerType` pairwise — two objects, or two arrays read the same way), no element of
         the first with the hash code of an element of the second: `a.Diff(b)` IS the concatenation of
-        the sub-diffs at `[.idx i]`. There is no array-level hunk. No other hypothesis.
+        the sub-diffs at `[.idx i]`. There is no array-level hunk. One more hypothesis: `noMixed xs ys`
+        (no position holds a typed `jsonList` against a plain `jsonArray`; decidable, true of documents
+        read from text) — for such a pair the one wholesale hunk receives an after-context from the
+        end block of `diffRest` (`Jd.subAfter`) and the diff is not the bare concatenation
+        (`Rec.Example.mixed_not_concatenation`).
       * `recursion_at_reached_position` (+ `array_level_hunks_spare_the_recursed_pair`): the general
         case, stated along `Rec.Reach`, the cursor walk of `jsonList.diffRest` (the decisions of the
         code without the hunks: both at the common sequence → step both; one of them → add / remove;
         neither → same kind: recurse, else replace). If the walk reaches a position whose cursor
-        elements `x`, `y` are same-kind containers and neither is the next element of the remaining
-        common sequence (`DPL.atC … = false`), then `a.Diff(b) = D1 ++ (sub-diff of x, y at the index
+        elements `x`, `y` are same-kind containers, not a typed list against a plain array
+        (`mixedPair x y = false`; only `recursion_at_reached_position` needs it), and neither is the
+        next element of the remaining common sequence (`DPL.atC … = false`), then `a.Diff(b) = D1 ++ (sub-diff of x, y at the index
         of y) ++ D2`, no hunk of the sub-diff is an array-level hunk (`Rec.isTop []`: path of length
         one, with context), and the array-level hunks of `D1` / `D2` only remove elements standing
         before / after `x` and only add elements standing before / after `y`
@@ -47,7 +52,8 @@
         container is never replaced as a whole.
    3b SHAPE ("every hunk that edits an array position carries exactly one line of before-context
       and one of after-context")
-      * `array_hunks_are_array_level_or_in_a_sub_diff`: NO hypothesis on the elements. Every hunk of
+      * `array_hunks_are_array_level_or_in_a_sub_diff`: only hypothesis on the elements: no
+        `mixedPair` between an element of `xs` and one of `ys`. Every hunk of
         the diff of two arrays is an array-level hunk (strict, path `[.idx i]`, one before- and one
         after-context line, not empty) or belongs to the sub-diff at `[.idx j]` of two same-kind
         containers `x ∈ xs`, `y = ys[j]`; `sub_diff_hunk_is_not_array_level`: on list documents the
@@ -71,7 +77,8 @@
       * static, top-level array (`context_lines_are_elements_of_the_arrays`): elements `DPL.GoodL`
         (list documents, `wf`, finite numbers, no void member) and `Rec.NumHashOK` (numbers equal as
         floats hash alike: true of all finite doubles; a hypothesis because `Float` is opaque to the
-        kernel). NO hash-collision hypothesis. Every hunk is `Real.Located [] xs ys`: `remove` a
+        kernel), and no `mixedPair` between an element of `xs` and one of `ys`. NO hash-collision
+        hypothesis. Every hunk is `Real.Located [] xs ys`: `remove` a
         contiguous run of `xs`, `add` the contiguous run of `ys` at the addressed index, `before`
         LITERALLY the element of `ys` preceding it (void at the start), `after` LITERALLY the element
         of `xs` following the removed run (void at the end) — or belongs to a sub-diff.
@@ -95,7 +102,9 @@
       through the nesting — the operational form is, but inherits `HashOK` and `ZeroOK`;
     * list documents holding a typed `jsonList` element against a plain `jsonArray` element: the
       sub-diff is a wholesale replacement (known, `Jd.diff_list_vs_array_nonempty`); it still is not
-      an array-level hunk; documents read from text (`rawDoc`) never contain such pairs;
+      an array-level hunk, but with nothing accumulated it receives an after-context (`Jd.subAfter`,
+      the end block of Go's `diffRest`): the statements that speak of the sub-diff literally exclude
+      such pairs (`noMixed` / `mixedPair`); documents read from text (`rawDoc`) never contain them;
     * set / multiset readings and the merge strategy: C06 is a list-mode property.
 -/
 import JdProofs.LcsProofs
@@ -198,20 +207,24 @@ theorem scalar_array_hunks_carry_one_line_of_context {o : Opts} (ho : dispatchTa
 
 /-! ### 3a. recursion instead of replacement -/
 
-/-- **special case, no further hypothesis**: two arrays of equal length whose elements are, position
-    by position, containers of the same kind, no element of the first having the hash code of an
-    element of the second: `a.Diff(b)` is EXACTLY the concatenation of the sub-diffs of the pairs at
-    `[.idx i]`; there is no array-level hunk (nothing is replaced) -/
+/-- **special case**: two arrays of equal length whose elements are, position by position,
+    containers of the same kind, no element of the first having the hash code of an element of the
+    second, and no position holding a typed `jsonList` against a plain `jsonArray` (`noMixed`,
+    decidable, JdProofs/SubAfter.lean; true of documents read from text: `noMixed_of_rawDocList`;
+    such a pair is replaced wholesale and the end block of `diffRest` gives that hunk an
+    after-context, so the diff is NOT the bare concatenation — `Rec.Example.mixed_not_concatenation`):
+    `a.Diff(b)` is EXACTLY the concatenation of the sub-diffs of the pairs at `[.idx i]`; there is no
+    array-level hunk (nothing is replaced) -/
 theorem same_kind_containers_are_recursed_into {o : Opts} (ho : dispatchTag o = .list)
     (hm : isMerge o = false) {t t' : Tag} (xs ys : List Json)
     (ht : (t == .raw || t == .list) = true) (ht' : (t' == .raw || t' == .list) = true)
     (htt : t = .raw ∨ t' = .list)
-    (same : Rec.sameKinds o xs ys = true)
+    (same : Rec.sameKinds o xs ys = true) (nomix : noMixed xs ys = true)
     (apart : ∀ x ∈ xs, ∀ y ∈ ys, hashCode o x ≠ hashCode o y) :
     diffM o (.arr t xs) (.arr t' ys) =
       ((xs.zip ys).zipIdx).flatMap
         (fun q => diffNode o false q.1.1 q.1.2 [.idx (q.2 : Int)]) :=
-  Rec.diffM_same_kind_containers ho hm xs ys ht ht' htt same apart
+  Rec.diffM_same_kind_containers ho hm xs ys ht ht' htt same nomix apart
 
 /-- in particular every hunk belongs to the sub-diff of the two elements at some position `i` and
     its path starts with that index -/
@@ -219,12 +232,12 @@ theorem same_kind_containers_every_hunk_in_a_sub_diff {o : Opts} (ho : dispatchT
     (hm : isMerge o = false) {t t' : Tag} (xs ys : List Json)
     (ht : (t == .raw || t == .list) = true) (ht' : (t' == .raw || t' == .list) = true)
     (htt : t = .raw ∨ t' = .list)
-    (same : Rec.sameKinds o xs ys = true)
+    (same : Rec.sameKinds o xs ys = true) (nomix : noMixed xs ys = true)
     (apart : ∀ x ∈ xs, ∀ y ∈ ys, hashCode o x ≠ hashCode o y) :
     ∀ h ∈ diffM o (.arr t xs) (.arr t' ys), ∃ (i : Nat) (x y : Json),
       xs[i]? = some x ∧ ys[i]? = some y ∧ h ∈ diffNode o false x y [.idx (i : Int)] ∧
         [PathElem.idx (i : Int)] <+: h.path :=
-  Rec.diffM_same_kind_containers_mem ho hm xs ys ht ht' htt same apart
+  Rec.diffM_same_kind_containers_mem ho hm xs ys ht ht' htt same nomix apart
 
 /-- **general case, along the cursor walk of the code** (`Rec.Reach`): wherever the walk meets two
     same-kind containers `x`, `y`, neither of them the next element of the remaining common sequence,
@@ -240,7 +253,7 @@ theorem recursion_at_reached_position {o : Opts} (ho : dispatchTag o = .list)
     {x y : Json} {a' b' : List Json} {c : List UInt64}
     (hr : Rec.Reach o xs ys (lcsValues (hashList o xs) (hashList o ys)) (x :: a') (y :: b') c)
     (hA : DPL.atC o x c = false) (hB : DPL.atC o y c = false)
-    (hs : sameContainerType o x y = true) :
+    (hs : sameContainerType o x y = true) (hnm : mixedPair x y = false) :
     ∃ (D1 D2 : Diff) (preA preB : List Json),
       xs = preA ++ x :: a' ∧ ys = preB ++ y :: b' ∧
       diffM o (.arr t xs) (.arr t' ys) =
@@ -248,7 +261,7 @@ theorem recursion_at_reached_position {o : Opts} (ho : dispatchTag o = .list)
       (∀ h ∈ diffNode o false x y [.idx (preB.length : Int)], Rec.isTop [] h = false) ∧
       (Rec.removedTop [] D1).Sublist preA ∧ (Rec.addedTop [] D1).Sublist preB ∧
       (Rec.removedTop [] D2).Sublist a' ∧ (Rec.addedTop [] D2).Sublist b' :=
-  Rec.diffM_recurses_at ho hm xs ys ht ht' htt hla hlb hr hA hB hs
+  Rec.diffM_recurses_at ho hm xs ys ht ht' htt hla hlb hr hA hB hs hnm
 
 /-- the same about the whole diff: all array-level hunks together remove a sublist of `xs` with the
     position of `x` taken out, and add a sublist of `ys` with the position of `y` taken out -/
@@ -277,21 +290,24 @@ theorem sub_diff_stays_strictly_inside {o : Opts} (ho : dispatchTag o = .list) {
 
 /-! ### 3b. shape of the hunks -/
 
-/-- two arrays with ARBITRARY elements: every hunk of `a.Diff(b)` is an array-level hunk — strict,
+/-- two arrays with arbitrary elements, except that no element of the first is a typed array node
+    standing against a plain `jsonArray` of the second (`mixedPair`; true of documents read from text):
+    every hunk of `a.Diff(b)` is an array-level hunk — strict,
     addressed to an index of the array, exactly one line of before- and one of after-context, removing
     or adding at least one element — or belongs to the sub-diff, at `[.idx j]`, of two containers of
     the same kind `x ∈ xs` and `y = ys[j]` -/
 theorem array_hunks_are_array_level_or_in_a_sub_diff {o : Opts} (ho : dispatchTag o = .list)
     (hm : isMerge o = false) {t t' : Tag} (xs ys : List Json)
     (ht : (t == .raw || t == .list) = true) (ht' : (t' == .raw || t' == .list) = true)
-    (htt : t = .raw ∨ t' = .list) :
+    (htt : t = .raw ∨ t' = .list)
+    (nomix : ∀ x ∈ xs, ∀ y ∈ ys, mixedPair x y = false) :
     ∀ h ∈ diffM o (.arr t xs) (.arr t' ys),
       (h.before.length = 1 ∧ h.after.length = 1 ∧ (∃ i : Nat, h.path = [.idx i]) ∧
         h.merge = false ∧ (h.remove ≠ [] ∨ h.add ≠ [])) ∨
       (∃ (preA : List Json) (x : Json) (postA preB : List Json) (y : Json) (postB : List Json),
         xs = preA ++ x :: postA ∧ ys = preB ++ y :: postB ∧ sameContainerType o x y = true ∧
           h ∈ diffNode o false x y [.idx (preB.length : Int)]) :=
-  Rec.diffM_array_hunks ho hm xs ys ht ht' htt
+  Rec.diffM_array_hunks ho hm xs ys ht ht' htt nomix
 
 /-- on list documents the two alternatives exclude each other: a hunk of the sub-diff computed at
     `p ++ [.idx j]` has a longer path, or carries no context at all (the wholesale replacement of a
@@ -402,13 +418,14 @@ theorem context_lines_are_elements_of_the_arrays {o : Opts} (ho : dispatchTag o 
     (hm : isMerge o = false) {t t' : Tag} (xs ys : List Json)
     (ht : (t == .raw || t == .list) = true) (ht' : (t' == .raw || t' == .list) = true)
     (htt : t = .raw ∨ t' = .list) (gx : DPL.GoodL xs) (gy : DPL.GoodL ys)
-    (Z : Rec.NumHashOK o (DPL.subtermsList xs) (DPL.subtermsList ys)) :
+    (Z : Rec.NumHashOK o (DPL.subtermsList xs) (DPL.subtermsList ys))
+    (nomix : ∀ x ∈ xs, ∀ y ∈ ys, mixedPair x y = false) :
     ∀ h ∈ diffM o (.arr t xs) (.arr t' ys),
       Real.Located [] xs ys h ∨
       (∃ (preA : List Json) (x : Json) (postA preB : List Json) (y : Json) (postB : List Json),
         xs = preA ++ x :: postA ∧ ys = preB ++ y :: postB ∧ sameContainerType o x y = true ∧
           h ∈ diffNode o false x y [.idx (preB.length : Int)]) :=
-  Rec.diffM_located_containers ho hm xs ys ht ht' htt gx gy Z
+  Rec.diffM_located_containers ho hm xs ys ht ht' htt gx gy Z nomix
 
 /-- `Rec.NumHashOK` follows from the `0` / `-0` exclusion of the C01 domain -/
 theorem numHashOK_of_no_zero_pair {o : Opts} {S T : List Json}
@@ -474,7 +491,7 @@ example : diffM [] (.arr .raw Rec.Example.xsE) (.arr .raw Rec.Example.ysE) =
     ((Rec.Example.xsE.zip Rec.Example.ysE).zipIdx).flatMap
       (fun q => diffNode [] false q.1.1 q.1.2 [.idx (q.2 : Int)]) :=
   same_kind_containers_are_recursed_into rfl rfl _ _ rfl rfl (.inl rfl) Rec.Example.same
-    Rec.Example.apart
+    Rec.Example.nomixE Rec.Example.apart
 
 /-- the hypotheses of `recursion_at_reached_position` with a NON-empty common sequence:
     `["k", {"a":"u"}, ["p"]]` against `["k", {"a":"v"}, ["p","q"]]`, the walk after the common `"k"` -/
